@@ -43,6 +43,7 @@ int  mc_fiber_parked (int i);   /* parked in a spin loop */
 void mc_blocks_reset (void);
 unsigned mc_blocks (void);
 unsigned mc_blocks_of (int fiber);
+unsigned mc_sleeps_of (int fiber);   /* semaphore / futex sleeps only, same arming */
 
 /* Thread exit followed by the start of a fresh thread on the same fiber: runs
    the per-thread-waiter destructor as a pthread key destructor would.  */
